@@ -26,6 +26,7 @@ import GraphiqModel.Proofs.HilbertDimAdjoint
 import GraphiqModel.Proofs.HilbertDimCPTP
 import GraphiqModel.Proofs.HilbertDimExpect
 import GraphiqModel.Proofs.HilbertDimOverlap
+import GraphiqModel.Proofs.HilbertDimReduced
 namespace Graphiq.C07
 open Graphiq Graphiq.PRow Graphiq.Tab
 
@@ -1467,5 +1468,59 @@ example : Matrix.trace (rho 2 (STab.ofTab bell) * rho 2 (STab.ofTab (Tab.ket0 2)
     decide
   exact ⟨(stabilizer_state_overlap bell (Tab.ket0 2) rfl bell_valid bell_real (ket0_is_valid 2) (ket0_stabReal 2)).2.1 hno,
     by decide⟩
+
+/-! ### 7.10 the reduced state of an arbitrary stabilizer state -/
+
+/-- **The reduced state of a stabilizer state, without any product assumption** (Fattal–Cubitt–Yamamoto–Bravyi–Chuang).
+    Valid tableau on `n = m + |rem|` qubits, `rem` the (descending) list of traced-out sites, `c_0 … c_{k-1}` an independent
+    generating set of the stabilizers that act as the identity on `rem` (`IsLocalBasis`).  Then
+    `Tr_rem ρ = (2^k / 2^m) · Π` with `Π = ∏_{i<k} (1 + c_i|_kept)/2` an orthogonal projector: the reduced state is maximally
+    mixed on the subspace stabilized by the restricted subgroup, `σ² = (2^k/2^m) σ`, purity `tr σ² = 2^{-(m-k)}` — the
+    entanglement entropy of the cut is `m − k` bits (the quantity behind the height function of C03; `k = m` is the
+    product-factor case of `partial_trace_factor_is_partial_trace`).  Also: the partial trace of a Pauli matrix, and the
+    reduced state as the sum over the stabilizers supported on the kept qubits. -/
+theorem reduced_state_of_stabilizer_state (m : Nat) (t : Tab) (rem : List Nat) (hn : t.n = m + rem.length)
+    (hv : t.Valid) (hr : t.StabReal) (hpw : rem.Pairwise (· > ·)) (hlt : ∀ q, q ∈ rem → q < t.n) (k : Nat)
+    (c : Nat → PRow) (hb : IsLocalBasis t rem k c) :
+    ptraceList rem (rho (m + rem.length) (STab.ofTab t))
+      = ((2 : ℂ) ^ k / 2 ^ m) • rhoTo m (fun i => delCols rem (c i)) k ∧
+    rhoTo m (fun i => delCols rem (c i)) k * rhoTo m (fun i => delCols rem (c i)) k
+      = rhoTo m (fun i => delCols rem (c i)) k ∧
+    (rhoTo m (fun i => delCols rem (c i)) k)ᴴ = rhoTo m (fun i => delCols rem (c i)) k ∧
+    ptraceList rem (rho (m + rem.length) (STab.ofTab t)) * ptraceList rem (rho (m + rem.length) (STab.ofTab t))
+      = ((2 : ℂ) ^ k / 2 ^ m) • ptraceList rem (rho (m + rem.length) (STab.ofTab t)) ∧
+    Matrix.trace (ptraceList rem (rho (m + rem.length) (STab.ofTab t))
+        * ptraceList rem (rho (m + rem.length) (STab.ofTab t))) = (2 : ℂ) ^ k / 2 ^ m :=
+  reduced_state_eq_proj m t rem hn hv hr hpw hlt k c hb
+
+open Classical in
+/-- the partial trace of a Pauli matrix: `2^{|rem|}` times the restricted Pauli if it acts as the identity on `rem`, else 0 -/
+theorem partial_trace_of_pauli {m : Nat} (rem : List Nat) (hpw : rem.Pairwise (· > ·))
+    (hlt : ∀ q, q ∈ rem → q < m + rem.length) (P : PRow) :
+    ptraceList rem (pauliMat (m + rem.length) P)
+      = (if IdOn rem P then (2 : ℂ) ^ rem.length else 0) • pauliMat m (delCols rem P) :=
+  ptraceList_pauli rem hpw hlt P
+
+/-- Bell pair, qubit 1 traced out: no non-trivial stabilizer is supported on qubit 0 (`k = 0`), so the reduced state is
+    `(2^0/2^1)·1` — one bit of entanglement entropy -/
+example : IsLocalBasis bell [1] 0 (fun _ => PRow.one) := by
+  refine ⟨fun i hi => absurd hi (Nat.not_lt_zero _), fun i hi => absurd hi (Nat.not_lt_zero _),
+    fun _ _ i hi => absurd hi (Nat.not_lt_zero _), ?_⟩
+  intro g hg hid
+  refine ⟨fun _ => false, ?_⟩
+  show EqOn 2 g PRow.one
+  obtain ⟨s, hs, e⟩ := (STab.spn_iff_mask (STab.ofTab bell) (ofTab_good bell bell_valid) g).1
+    ((spn_of_grp bell bell_real g).mp hg)
+  have hs' : s < 4 := hs
+  have h1 := hid 1 List.mem_cons_self
+  have ex := (e.1 1 (by decide)).1
+  have ez := (e.1 1 (by decide)).2
+  rw [h1.1] at ex
+  rw [h1.2] at ez
+  interval_cases s
+  · exact e.trans (eqOn_check 2 _ _ (by decide))
+  · first | exact absurd ex (by decide) | exact absurd ez (by decide)
+  · first | exact absurd ex (by decide) | exact absurd ez (by decide)
+  · first | exact absurd ex (by decide) | exact absurd ez (by decide)
 
 end Graphiq.C07
